@@ -149,6 +149,31 @@ def gen_churn(rng, ndisp=8):
     return out
 
 
+def gen_flip(rng, ndisp=5):
+    """collectors with dynamic filters (answering sometimes), handed over plainly / boxed / arc'd, one after the other as a
+    thread's default: everything is emitted, the dynamic part is flipped, everything is emitted again, twice"""
+    out = []
+
+    def emit_all(t):
+        for lvl in range(1, 6):
+            for tgt in TGTS:
+                out.append({"ev": "emit", "t": t, "c": {"lvl": lvl, "tgt": tgt}, "k": rng.choice(["event", "event", "span"])})
+    for d in range(1, ndisp + 1):
+        thr = rng.choice([2, 3, 4, 5])
+        out.append({"ev": "new", "d": d, "f": {"thr": thr, "tgts": sorted(rng.sample(TGTS, rng.choice([2, 3]))), "kind": rng.choice(["dyn", "lazy"]), "hint": rng.choice([thr, 9])},
+                    "wrap": rng.choice(["", "arc", "arc", "box"])})
+        t = rng.choice([1, 2])
+        out.append({"ev": "set_default", "t": t, "d": d})
+        emit_all(t)
+        for _ in range(2):
+            out.append({"ev": "flip", "d": d})
+            emit_all(t)
+        out.append({"ev": "unset", "t": t})
+        if rng.random() < 0.6:
+            out.append({"ev": "drop", "d": d})
+    return out
+
+
 def tlc_behaviours(n, seed_, out, what):
     per = max(1, (n + 7) // 8)
     r = vlib.tlc(SPEC / "Dispatch", "MCDispatchSim", workers=8, simulate=per, depth=27, seed_=seed_, timeout=600)
